@@ -120,6 +120,15 @@ def catch(ctx: Ctx, rule: str = "R-C02-CATCH") -> None:
         "dependency resolve": find_calls(lambda c: isinstance(c.func, ast.Attribute) and c.func.attr == "resolve"),
         "dependency gather": find_calls(lambda c: (dotted(c.func) or "").endswith("gather")),
     }
+    helper_sites = {}
+    for h in C.helper_callees(ctx, f):
+        sites = [c for c in ast.walk(f.node) if isinstance(c, ast.Call) and any(cal is h for cal in ctx.res.callees(f, c, record=False))]
+        for what, pred in (("dependency resolve", lambda c: isinstance(c.func, ast.Attribute) and c.func.attr == "resolve"),
+                           ("convert_inputs", lambda c: isinstance(c.func, ast.Attribute) and c.func.attr == "convert_inputs"),
+                           ("convert_outputs", lambda c: isinstance(c.func, ast.Attribute) and c.func.attr == "convert_outputs"),
+                           ("dependency gather", lambda c: (dotted(c.func) or "").endswith("gather"))):
+            if any(isinstance(c, ast.Call) and pred(c) for c in ast.walk(h.node)):
+                wanted[what] = wanted[what] + sites  # the work happens where the helper is called
     for what, calls in wanted.items():
         ctx.require(bool(calls), f"{f.qualname}: no {what} call found (anchor vanished)")
         for c in calls:
@@ -153,12 +162,7 @@ def catch(ctx: Ctx, rule: str = "R-C02-CATCH") -> None:
         return None
 
     def actor_results(h: ast.ExceptHandler | None, body):
-        out = []
-        for st in body:
-            for n in ast.walk(st):
-                if isinstance(n, ast.Call) and (dotted(n.func) or "").split(".")[-1] == "ActorResult":
-                    out.append(n)
-        return out
+        return C.constructions(ctx, f, body, "ActorResult")
 
     h_no = first_match("base", "_NoAction")
     ok = False
@@ -166,13 +170,13 @@ def catch(ctx: Ctx, rule: str = "R-C02-CATCH") -> None:
     if h_no is not None:
         ars = actor_results(h_no, h_no.body)
         rets = [n for st in h_no.body for n in ast.walk(st) if isinstance(n, ast.Return)]
-        ok = len(ars) == 1 and C.is_const(C.kw(ars[0], "reporting_done"), True) and len(rets) >= 1 and handler_classes(h_no) == ["_NoAction"]
+        ok = len(ars) == 1 and C.is_const(ars[0][1].get("reporting_done"), True) and len(rets) >= 1 and handler_classes(h_no) == ["_NoAction"]
         why = "the _NoAction handler must return ActorResult(..., reporting_done=True)"
         if ok:
             # data / success / exception taken from the _NoAction instance
             nm = h_no.name
             for kwname in ("data", "success", "exception"):
-                v = C.kw(ars[0], kwname)
+                v = ars[0][1].get(kwname)
                 if not (isinstance(v, ast.Attribute) and isinstance(v.value, ast.Name) and v.value.id == nm and v.attr == kwname):
                     ok = False
                     why = f"ActorResult.{kwname} of an eager response is not taken from the _NoAction instance"
@@ -189,16 +193,21 @@ def catch(ctx: Ctx, rule: str = "R-C02-CATCH") -> None:
               "actor outcome and get a disposition besides the reject", node=h_c, instance="cancel not caught")
     # success / reporting_done of the non-eager ActorResult
     g = ctx.cfg(f)
-    final = [n for n in g.nodes if n.kind == "return" and isinstance(n.ast, ast.Return) and isinstance(n.ast.value, ast.Call)
-             and (dotted(n.ast.value.func) or "").endswith("ActorResult") and not C.is_const(C.kw(n.ast.value, "reporting_done"), True)]
+    final = []
+    for n in g.nodes:
+        if n.kind == "return" and isinstance(n.ast, ast.Return) and n.ast.value is not None:
+            cons = C.constructions(ctx, f, [n.ast.value], "ActorResult")
+            if len(cons) == 1 and not C.is_const(cons[0][1].get("reporting_done"), True):
+                n.meta["actor_result_kw"] = cons[0][1]
+                final.append(n)
     if not ctx.check(len(final) >= 1, rule, f, "final ActorResult", "found", "actor_run has no non-eager ActorResult return", instance="final result"):
         return
     for fr in final:
-        call = fr.ast.value
-        ctx.check(C.is_const(C.kw(call, "reporting_done"), False), rule, f, "ActorResult(reporting_done=False) for non-eager outcomes",
+        kwv = fr.meta["actor_result_kw"]
+        ctx.check(C.is_const(kwv.get("reporting_done"), False), rule, f, "ActorResult(reporting_done=False) for non-eager outcomes",
                   "non-eager outcomes are reported by the processor", "a non-eager ActorResult does not say reporting_done=False: "
                   "the message would get no disposition", node=fr, instance="final result: reporting_done False")
-        sv = C.kw(call, "success")
+        sv = kwv.get("success")
         if isinstance(sv, ast.Name):
             name = sv.id
             st_true = [n.id for n in g.nodes if n.kind == "store" and n.target == name and C.is_const(n.meta.get("value"), True)]
